@@ -9,6 +9,7 @@ import (
 	"os/exec"
 	"strconv"
 	"strings"
+	"syscall"
 	"time"
 )
 
@@ -37,6 +38,10 @@ func newSolver(kind string, timeout time.Duration) *Solver {
 		cmd = exec.Command("z3", "-in", fmt.Sprintf("-t:%d", ms))
 	case "z3-new":
 		cmd = exec.Command("z3-new", "-in", fmt.Sprintf("-t:%d", ms))
+	case "cvc5-int":
+		// integer encoding of bit-vector arithmetic (keeps the mod-2^k semantics): decides multiply/divide-by-constant
+		// kernels that stall the bit-blaster
+		cmd = exec.Command("cvc5", "--incremental", "--produce-models", "--solve-bv-as-int=sum", fmt.Sprintf("--tlimit-per=%d", ms))
 	default:
 		kind = "cvc5"
 		cmd = exec.Command("cvc5", "--incremental", "--produce-models", fmt.Sprintf("--tlimit-per=%d", ms))
@@ -44,11 +49,12 @@ func newSolver(kind string, timeout time.Duration) *Solver {
 	in, _ := cmd.StdinPipe()
 	out, _ := cmd.StdoutPipe()
 	cmd.Stderr = os.Stderr
+	cmd.SysProcAttr = &syscall.SysProcAttr{Pdeathsig: syscall.SIGKILL}
 	if err := cmd.Start(); err != nil {
 		panic(err)
 	}
 	s := &Solver{kind: kind, cmd: cmd, in: in, out: bufio.NewReaderSize(out, 1<<16), defined: map[int64]int{}, declared: map[string]int{}, timeout: timeout}
-	if kind == "cvc5" {
+	if kind == "cvc5" || kind == "cvc5-int" {
 		s.send("(set-logic ALL)")
 	} else {
 		s.send("(set-option :produce-models true)")
